@@ -116,21 +116,23 @@ Proof. intros lit c r H. unfold lchar_ok in H. cbn [fst snd] in H. apply andb_tr
 
 Lemma text_val_cons : forall c r t, text_val ((c, r) :: t) = u16 c ++ text_val t.
 Proof. reflexivity. Qed.
+Lemma att_val_cons : forall p t, att_val (p :: t) = att_char_val p ++ att_val t.
+Proof. reflexivity. Qed.
 Lemma render_text_cons : forall p t, render_text (p :: t) = render_char p ++ render_text t.
 Proof. reflexivity. Qed.
 
 (* ---- attribute values *)
 Lemma scan_attval_ok : forall q, (q = c_dq \/ q = c_sq) -> forall v fuel rest,
   forallb (lchar_ok (lit_ok_att q)) v = true -> (length (render_text v) < fuel)%nat ->
-  scan_attval fuel q false (render_text v ++ q :: rest) = SOk (text_val v) rest.
+  scan_attval fuel q false (render_text v ++ q :: rest) = SOk (att_val v) rest.
 Proof.
   intros q Hq. induction v as [|[c r] v IH]; intros fuel rest Hv Hf.
   - destruct fuel as [|f]; [inversion Hf|]. cbn [render_text flat_map app scan_attval].
     rewrite (eqb_false q 0) by (unfold c_dq, c_sq in Hq; lia). rewrite N.eqb_refl. reflexivity.
   - cbn [forallb] in Hv. apply andb_true_iff in Hv. destruct Hv as [Hc Hv].
     destruct (lchar_ok_inv _ c r Hc) as [Hcp [Href Hlit]].
-    rewrite render_text_cons, text_val_cons, <- app_assoc. rewrite render_text_cons, app_length in Hf.
-    destruct r as [|ds|ds|].
+    rewrite render_text_cons, att_val_cons, <- app_assoc. rewrite render_text_cons, app_length in Hf.
+    destruct r as [|ds|ds|]; unfold att_char_val; cbn [fst snd].
     + (* literal *)
       specialize (Hlit eq_refl). unfold lit_ok_att in Hlit. unfold render_char in Hf |- *. cbn [fst snd] in Hf |- *.
       pose proof (units_of_u16 c Hcp) as U. inversion U as [A B C D E Eq|h l Hh Hl Eq].
@@ -140,10 +142,15 @@ Proof.
         rewrite (eqb_false c c_amp) by (intro X; subst c; discriminate).
         rewrite sc2_plain by assumption.
         rewrite (eqb_false c c_lt) by (intro X; subst c; discriminate).
-        assert (W : (if is_ws c then c_sp else c) = c).
-        { assert (NW : c <> 9 /\ c <> 10 /\ c <> 13) by lia.
-          destruct (is_ws c) eqn:Ew; [|reflexivity]. apply is_ws_spec in Ew. unfold c_sp. lia. }
-        rewrite W. rewrite (IH f rest Hv) by lia. reflexivity.
+        assert (W : [if is_ws c then c_sp else c] = (if (c =? 9) || (c =? 10) then [32] else [c])).
+        { assert (NW : c <> 13) by (unfold c_cr in Hlit; lia).
+          destruct (is_ws c) eqn:Ew.
+          - apply is_ws_spec in Ew. unfold c_sp. destruct Ew as [X|[X|[X|X]]]; subst c; try reflexivity. contradiction.
+          - replace ((c =? 9) || (c =? 10)) with false; [reflexivity|]. symmetry.
+            destruct ((c =? 9) || (c =? 10)) eqn:X; [|reflexivity]. assert (is_ws c = true) by (apply is_ws_spec; lia). congruence. }
+        rewrite (IH f rest Hv) by lia. cbn [cons_res].
+        change ((if is_ws c then c_sp else c) :: att_val v) with ([if is_ws c then c_sp else c] ++ att_val v).
+        f_equal. f_equal. exact W.
       * rewrite <- Eq in Hf. cbn [length] in Hf. destruct fuel as [|[|f]]; [inversion Hf|lia|].
         assert (Qv : q < 0xD800) by (unfold c_dq, c_sq in Hq; lia).
         cbn [app scan_attval]. rewrite (eqb_false h 0) by lia. rewrite (eqb_false h q) by lia.
@@ -154,7 +161,9 @@ Proof.
         rewrite (eqb_false l c_amp) by (unfold c_amp; lia). rewrite sc2_lo by assumption.
         rewrite (eqb_false l c_lt) by (unfold c_lt; lia).
         replace (is_ws l) with false by (symmetry; destruct (is_ws l) eqn:Ew; [apply is_ws_spec in Ew; lia|reflexivity]).
-        rewrite (IH f rest Hv) by lia. reflexivity.
+        rewrite (IH f rest Hv) by lia. replace ((c =? 9) || (c =? 10)) with false; [reflexivity|].
+        symmetry. destruct ((c =? 9) || (c =? 10)) eqn:X; [|reflexivity].
+        assert (c = 9 \/ c = 10) by lia. rewrite u16_bmp in Eq by lia. discriminate.
     + destruct (entref_ok c (RDec ds) (render_text v ++ q :: rest) Hcp Href) as [t [Et Es]]; [discriminate|].
       rewrite Et in *. cbn [length] in Hf. destruct fuel as [|f]; [inversion Hf|]. cbn [app scan_attval].
       rewrite (eqb_false c_amp 0) by discriminate. rewrite (eqb_false c_amp q) by (unfold c_amp, c_dq, c_sq in *; lia).
